@@ -85,8 +85,11 @@ End GetFacts.
 
 Section Proofs.
   Context {V : Type}.
+  Variable order_fixed range_fixed : bool.
   Variable block_len : N.
   Notation rblock := (rblock V).
+  Notation build := (build order_fixed block_len).
+  Notation stream_all := (stream_all range_fixed).
 
   (* flushed blocks in file order against the groups of pairs they hold.  This is also the block-index
      invariant: last key of block i <= separator i < first key of block i+1. *)
@@ -125,10 +128,10 @@ Section Proofs.
   (* the dictionary of strictly increasing pairs: never a panic, the right number of terms, and
      blocks that partition the pairs in order with separators in between *)
   Theorem build_dict_rel kvs : ssorted (keys kvs) = true ->
-    exists d Bs, build block_len kvs = Some (d, N.of_nat (length kvs)) /\ concat Bs = kvs /\ dict_rel 0 d Bs.
+    exists d Bs, build kvs = Some (d, N.of_nat (length kvs)) /\ concat Bs = kvs /\ dict_rel 0 d Bs.
   Proof.
-    intros Hs. destruct (build_sorted_ok block_len kvs Hs) as (st & Hrun & rBs & C & HD & Hblk & Hvals & Hprev & Hnum & Hfo & Hrel).
-    unfold build. rewrite Hrun. unfold finish. destruct (w_block st) as [|b0 bl] eqn:Eb.
+    intros Hs. destruct (build_sorted_ok order_fixed block_len kvs Hs) as (st & Hrun & rBs & C & HD & Hblk & Hvals & Hprev & Hnum & Hfo & Hrel).
+    unfold Writer.build. rewrite Hrun. unfold finish. destruct (w_block st) as [|b0 bl] eqn:Eb.
     - assert (C = []) by (apply encode_block_keys_nil_iff; now rewrite <- Hblk). subst C. rewrite app_nil_r in HD.
       exists (rev (w_done st)), (rev rBs). rewrite Hnum. split; [reflexivity|]. split; [now rewrite HD|].
       pose proof (rdone_to_dict (w_done st) rBs _ _ [] [] Hrel I I) as H. now rewrite !app_nil_r in H.
@@ -177,10 +180,10 @@ Section Proofs.
 
   (* C15_roundtrip: streaming everything returns exactly the inserted pairs, across any block flushes *)
   Theorem stream_build kvs : keys_ok kvs ->
-    exists d, build block_len kvs = Some (d, N.of_nat (length kvs)) /\ stream_all d = Some kvs.
+    exists d, build kvs = Some (d, N.of_nat (length kvs)) /\ stream_all d = Some kvs.
   Proof.
     intros Hok. destruct (build_dict_rel kvs (proj1 Hok)) as (d & Bs & Hb & Hc & Hr). exists d. split; [exact Hb|].
-    unfold stream_all, range, slice_for_range. cbn [bound_key Nat.ltb Nat.leb]. cbn [skipn].
+    unfold Dict.stream_all, range, slice_for_range. cbn [bound_key Nat.ltb Nat.leb]. cbn [skipn].
     rewrite <- Hc in Hok. rewrite (blocks_kvs_rel d 0 Bs Hr Hok). cbn [option_map]. now rewrite stream_loop_unbounded, Hc.
   Qed.
 
@@ -301,7 +304,7 @@ Section Proofs.
 
   (* C15_lookups *)
   Theorem lookups_build kvs key : keys_ok kvs ->
-    exists d, build block_len kvs = Some (d, N.of_nat (length kvs)) /\
+    exists d, build kvs = Some (d, N.of_nat (length kvs)) /\
       get d key = Some (sm_get kvs key) /\
       (exists h, term_ord_or_next d key = Some h /\
                  (h = sm_ord_or_next (keys kvs) key \/
@@ -379,4 +382,44 @@ Section Proofs.
       rewrite Hf. pose proof (stream_loop_all_above hi (a :: l) Hs) as H. cbn [stream_loop above filter] in H. exact H.
     - now apply IH.
   Qed.
+
+  (* ---- inverted ranges ---- *)
+  Definition range_inverted (lo hi : bound) : bool :=
+    match bound_key lo, bound_key hi with Some a, Some b => blt b a | _, _ => false end.
+
+  Lemma inverted_no_key (lo hi : bound) k : range_inverted lo hi = true -> above lo k && below hi k = false.
+  Proof.
+    unfold range_inverted. intros H.
+    destruct (above lo k) eqn:E1; [|reflexivity]. destruct (below hi k) eqn:E2; [exfalso|reflexivity].
+    destruct lo as [|a|a], hi as [|b|b]; cbn [bound_key above below] in *; try discriminate.
+    all: assert (A : ble a k = true) by (first [exact E1|now apply blt_ble]);
+         assert (B : ble k b = true) by (first [exact E2|now apply blt_ble]);
+         assert (X : blt b b = true) by (apply blt_ble_trans with k; [now apply blt_ble_trans with a|exact B]);
+         now rewrite blt_irrefl in X.
+  Qed.
+
+  (* an inverted range streams nothing, whatever sorted pairs the block selection hands to the streamer *)
+  Theorem inverted_range_streams_nothing (lo hi : bound) (l : smap V) : range_inverted lo hi = true ->
+    ssorted (keys l) = true -> stream_loop lo hi l = [] /\ sm_range lo hi l = [].
+  Proof.
+    intros Hi Hs. rewrite stream_loop_is_range by exact Hs.
+    assert (E : sm_range lo hi l = []).
+    { unfold sm_range. clear Hs. induction l as [|a l IH]; cbn [filter]; [reflexivity|]. now rewrite inverted_no_key by exact Hi. }
+    now rewrite E.
+  Qed.
+
+  (* ... and under the fixed shape the block selection itself never panics, for any dictionary, bounds and limit *)
+  Theorem slice_never_panics (d : list rblock) lo hi limit : slice_for_range true d lo hi limit <> SlicePanic.
+  Proof.
+    unfold slice_for_range.
+    repeat match goal with
+           | |- context [match ?x with _ => _ end] => destruct x
+           | |- context [if ?x then _ else _] => destruct x
+           end; discriminate.
+  Qed.
 End Proofs.
+
+Lemma range_shape_known : SST_RANGE_INVERTED_EMPTY + SST_RANGE_SLICE_UNGUARDED = 1.
+Proof. reflexivity. Qed.
+Lemma range_fixed_pinned : RANGE_FIXED = true.
+Proof. reflexivity. Qed.
